@@ -50,6 +50,10 @@ var vfC21Faults = []vfC21Fault{
 	{"ok", "ok"},
 	{"drop-after-server", "must"},
 	{"drop-before-server", "must"},
+	// the caller's own context is cancelled after the server ran the turn and before the
+	// response is handed back (a client-side timeout / abandoned call): the turn's outcome is
+	// unknown to the caller, so it is ambiguous like any other lost response
+	{"ctx-cancelled-after-server", "must"},
 	{"status-500", "must"},
 	{"status-404", "must"},
 	{"empty-body", "must"},
@@ -245,6 +249,7 @@ type vfC21Req struct {
 type vfC21Flip = func(wire, plain []byte, compressed bool) (pos int, mask byte)
 
 type vfC21RT struct {
+	cancel func() // cancels the context the harness passed to the client call in flight
 	h    http.Handler
 	reqs []*vfC21Req
 	// pick chooses the fault for response k; wire is the server's encoded body
@@ -311,6 +316,14 @@ func (rt *vfC21RT) RoundTrip(req *http.Request) (*http.Response, error) {
 	case "ok":
 	case "drop-after-server":
 		return nil, errors.New("connection reset by peer (response lost)")
+	case "ctx-cancelled-after-server":
+		if rt.cancel != nil {
+			rt.cancel()
+		}
+		if err := req.Context().Err(); err != nil {
+			return nil, err
+		}
+		return nil, context.Canceled
 	case "status-500":
 		status, out = 500, []byte("internal proxy error")
 		setEnc("")
@@ -541,6 +554,8 @@ func vfC21FaultByName(n string) vfC21Fault {
 // vfC21FaultGroup coarsens a fault name for the cursor-replay signature.
 func vfC21FaultGroup(n string) string {
 	switch {
+	case n == "ctx-cancelled-after-server":
+		return "context-cancelled"
 	case strings.HasPrefix(n, "drop-"), n == "flip-not-delivered":
 		return "lost-response"
 	case strings.HasPrefix(n, "status-"):
@@ -573,6 +588,19 @@ type vfC21World struct {
 	rt     *vfC21RT
 	client *HttpClient
 	logs   []string
+}
+
+// ctx returns a fresh cancellable context for ONE client call and hands its
+// cancel function to the transport (for the ctx-cancelled fault). Every call gets
+// its own context, so a later call is never refused merely because an earlier
+// call's context was cancelled.
+func (w *vfC21World) ctx() context.Context {
+	if w.rt.cancel != nil {
+		w.rt.cancel()
+	}
+	c, cancel := context.WithCancel(context.Background())
+	w.rt.cancel = cancel
+	return c
 }
 
 var vfC21TurnKinds = []string{"emit", "emit-meta-log", "fail-rpc", "emit-zero-rows", "fail-plain"}
@@ -662,13 +690,12 @@ func vfC21CheckBatch(x *venum.X, cls string, got *ClientBatch, want vfBatch) {
 
 // vfC21Exchange drives one exchange history and applies the oracle.
 func vfC21Exchange(x *venum.X, w *vfC21World, kinds []string, decl ClientStreamSchema, declOK bool, initX int64) {
-	ctx := context.Background()
 	rt := w.rt
 	var trace []string
 	var stream *HttpClientStream
 	err, pan := vfC21Call(func() error {
 		var e error
-		stream, e = w.client.OpenExchange(ctx, "exch", vfI64Batch("x", initX), decl)
+		stream, e = w.client.OpenExchange(w.ctx(), "exch", vfI64Batch("x", initX), decl)
 		return e
 	})
 	initFault := "ok"
@@ -710,7 +737,7 @@ func vfC21Exchange(x *venum.X, w *vfC21World, kinds []string, decl ClientStreamS
 		var got *ClientBatch
 		err, pan := vfC21Call(func() error {
 			var e error
-			got, e = stream.Exchange(ctx, vfI64Batch("x", int64(i+1)))
+			got, e = stream.Exchange(w.ctx(), vfI64Batch("x", int64(i+1)))
 			return e
 		})
 		sent := len(rt.reqs) - before
@@ -801,7 +828,7 @@ func vfC21Exchange(x *venum.X, w *vfC21World, kinds []string, decl ClientStreamS
 	}
 	// cancel + close at the end must not resurrect an old cursor either
 	before := len(rt.reqs)
-	_, pan = vfC21Call(func() error { return stream.Cancel(ctx) })
+	_, pan = vfC21Call(func() error { return stream.Cancel(w.ctx()) })
 	if pan != nil {
 		vfC21Failf(x, "C21:exchange:cancel:client-panic", "Cancel panicked: %v", pan)
 	}
@@ -927,15 +954,14 @@ func TestVerif_C21(t *testing.T) {
 			pick = func(int) (string, vfC21Flip) { return "ok", nil }
 		}
 		w := vfC21NewWorld(x, compress, turns, pick)
-		ctx := context.Background()
-		switch api {
+			switch api {
 		case "exchange":
 			vfC21Exchange(x, w, kinds, ClientStreamSchema{Input: vfInSchema, Output: d.out}, d.name == "exact", initX)
 		case "producer":
 			var st *HttpClientStream
 			err, pan := vfC21Call(func() error {
 				var e error
-				st, e = w.client.OpenProducer(ctx, "prod", vfI64Batch("x", initX), ClientStreamSchema{Output: d.out})
+				st, e = w.client.OpenProducer(w.ctx(), "prod", vfI64Batch("x", initX), ClientStreamSchema{Output: d.out})
 				return e
 			})
 			fault := w.rt.reqs[0].fault
@@ -1004,7 +1030,7 @@ func TestVerif_C21(t *testing.T) {
 				if initX < 0 {
 					xv = -1
 				}
-				got, e = w.client.CallUnary(ctx, "u", vfI64Batch("x", xv), uSchema)
+				got, e = w.client.CallUnary(w.ctx(), "u", vfI64Batch("x", xv), uSchema)
 				return e
 			})
 			fault := w.rt.reqs[0].fault
@@ -1055,11 +1081,10 @@ func TestVerif_C21(t *testing.T) {
 			turns = append(turns, vfC21Turn(last))
 		}
 		w := vfC21NewWorld(x, compress, turns, devFault(x))
-		ctx := context.Background()
-		var st *HttpClientStream
+			var st *HttpClientStream
 		err, pan := vfC21Call(func() error {
 			var e error
-			st, e = w.client.OpenProducer(ctx, "prod", vfI64Batch("x", 0), ClientStreamSchema{Output: vfOutSchema})
+			st, e = w.client.OpenProducer(w.ctx(), "prod", vfI64Batch("x", 0), ClientStreamSchema{Output: vfOutSchema})
 			return e
 		})
 		if pan != nil {
@@ -1073,7 +1098,7 @@ func TestVerif_C21(t *testing.T) {
 				var ok bool
 				e, pan := vfC21Call(func() error {
 					var e2 error
-					b, ok, e2 = st.Next(ctx)
+					b, ok, e2 = st.Next(w.ctx())
 					return e2
 				})
 				if pan != nil {
